@@ -758,6 +758,13 @@ func evalFunctionCall(node *CallExpression, env *Environment) Object {
 		return newError("the function is not allowed in an condition expression; function: " + funcObj.Name)
 	}
 
+	for _, arg := range node.Arguments {
+		// the arguments of a function are operands, not conditions
+		if arg == nil || isConditionExpression(arg) {
+			return newError("invalid function argument; expression: " + node.String())
+		}
+	}
+
 	args := evalExpressions(node.Arguments, env)
 	if len(args) == 1 && isError(args[0]) {
 		return args[0]
